@@ -527,8 +527,9 @@ def harnesses(tier: str) -> List[Harness]:
                             "sentinel re-sort": "n <= %d, every arrival order of every batch" % smax}
     s1 = [dict(cfg=nm, nmax=nmax, sis_all=False) for nm in names]
     s2 = [dict(cfg=nm, nmax=smax, k5=0, **({"k4": 0} if smax < 5 else {})) for nm in names]
-    return [Harness("batches", h_batches, s1, budget_s=120 if q else 900),
-            Harness("sentinel", h_sentinel, s2, budget_s=120 if q else 900)]
+    # (budgets are CPU seconds per slice and only a cap: a slice normally needs 15-40 s quick, 60-400 s thorough)
+    return [Harness("batches", h_batches, s1, budget_s=240 if q else 2400, per_path_timeout=10 if q else 30),
+            Harness("sentinel", h_sentinel, s2, budget_s=240 if q else 2400, per_path_timeout=10 if q else 30)]
 
 
 def classify(hname, args, rep):
